@@ -347,7 +347,33 @@ def k_tm_wrong_type(ctx, apid, count, ts, data):
         ctx.fail("tm.refusal", "wrong_error", f"composite/{type(res).__name__}", case, error=repr(res))
 
 
-KINDS = {"tm_wrong_type": k_tm_wrong_type, "tm": k_tm, "tm_short": k_tm_short, "sec_header": k_sec_header, "view_history": k_view_history}
+def k_same_shape_series(ctx, seed):
+    """Many telemetry packets one after the other that agree in every header field, the timestamp length and the length of their
+    source data and differ only in content (timestamp and data), each with fresh objects that are released again."""
+    import random
+    tmm, sp, check_pus_crc, Service17Tm = _imp()
+    r = random.Random(f"tmseries/{seed}")
+    case = {"k": "same_shape_series", "seed": seed}
+    ctx.case("tm_same_shape_series", seed, sample=case)
+    f = (r.getrandbits(11), r.getrandbits(14), r.getrandbits(8), r.getrandbits(8), r.getrandbits(16), r.getrandbits(16), r.getrandbits(4), r.getrandbits(3))
+    n, tsl = r.choice((0, 1, 16, 255, 256, 257, 300, 1024, 4096)), r.choice((0, 7, 16))
+    for i in range(r.choice((6, 12, 40))):
+        data = bytes(rand_bytes(r, n)) if r.random() < 0.8 else bytearray(rand_bytes(r, n))
+        ts = bytes(rand_bytes(r, tsl))
+        want = R.tm(f[0], f[1], f[2], f[3], f[4], f[5], f[6], ts, bytes(data), version=f[7])
+        t = build("ctor", f[0], f[1], f[2], f[3], f[4], f[5], f[6], f[7], ts, data)
+        how = r.choice(("pack", "pack", "view", "pack_twice", "decode"))
+        if how == "decode":
+            ok, got = attempt(lambda: bytes(tmm.PusTm.unpack(want, tsl).pack()))
+        else:
+            ok, got = attempt(lambda: bytes(t.to_space_packet().pack()) if how == "view" else (t.pack(), bytes(t.pack()))[1] if how == "pack_twice" else bytes(t.pack()))
+        if not ctx.check("tm.series", ok and got == want, "packet_of_an_earlier_telemetry_packet_of_the_same_shape_shows", f"{_octet_diff(got, want, tsl) if ok else 'raised'}/len={_lenclass(n)}", dict(case, index=i, how=how),
+                         observed=got[-8:] if ok else repr(got), expected=want[-8:]):
+            return
+        del t, data, ts
+
+
+KINDS = {"same_shape_series": k_same_shape_series, "tm_wrong_type": k_tm_wrong_type, "tm": k_tm, "tm_short": k_tm_short, "sec_header": k_sec_header, "view_history": k_view_history}
 
 
 def selftest(ctx):
@@ -436,6 +462,8 @@ def run(ctx):
              model_fed=r.random() < 0.5)
     for j in range(ctx.n(1500, 150_000)):
         k_view_history(ctx, ctx.seed * 1_000_003 + ctx.shard[0] * 100_003 + j)
+    for j in range(ctx.n(120, 12_000)):
+        k_same_shape_series(ctx, ctx.seed * 1_000_003 + ctx.shard[0] * 100_003 + j)
     # telemetry whose running CRC is exactly 0x0000 / 0xFFFF after the primary header, or after both headers
     for where in ("primary", "secondary"):
         for target in (0x0000, 0xFFFF):
